@@ -16,8 +16,9 @@ pub struct TransactionState {
     pub in_transaction: bool,
     /// Queued commands
     pub queued_commands: VecDeque<Vec<RespFrame>>,
-    /// Watched keys with their baseline modification counters (key -> counter when watched)
-    pub watched_keys: HashMap<Vec<u8>, u64>,
+    /// Watched keys with their baseline modification counters ((database, key) -> counter when watched):
+    /// the database is the one selected at WATCH time, so a later SELECT cannot redirect the check or the unregistration
+    pub watched_keys: HashMap<(usize, Vec<u8>), u64>,
     /// Whether the transaction is aborted due to watched key changes
     pub aborted: bool,
 }
@@ -56,8 +57,8 @@ pub fn handle_exec(
     }
     
     // Check watched keys
-    for (key, baseline_counter) in &conn.transaction_state.watched_keys {
-        if storage.was_modified_since(conn.db_index, key, *baseline_counter)? {
+    for ((watch_db, key), baseline_counter) in &conn.transaction_state.watched_keys {
+        if storage.was_modified_since(*watch_db, key, *baseline_counter)? {
             conn.transaction_state.watched_keys.clear();
             return Ok(RespFrame::null_array());
         }
@@ -107,9 +108,10 @@ pub fn handle_watch(conn: &mut Connection, parts: &[RespFrame], storage: &Arc<St
         match &parts[i] {
             RespFrame::BulkString(Some(bytes)) => {
                 let key = bytes.as_ref().clone();
+                let entry = (conn.db_index, key.clone());
                 
                 // A key that is already watched keeps its first baseline (and is registered once)
-                if conn.transaction_state.watched_keys.contains_key(&key) {
+                if conn.transaction_state.watched_keys.contains_key(&entry) {
                     continue;
                 }
                 
@@ -117,16 +119,16 @@ pub fn handle_watch(conn: &mut Connection, parts: &[RespFrame], storage: &Arc<St
                 match storage.register_watch(conn.db_index, &key) {
                     Ok(baseline_counter) => {
                         // Store the baseline counter for violation detection
-                        conn.transaction_state.watched_keys.insert(key, baseline_counter);
+                        conn.transaction_state.watched_keys.insert(entry, baseline_counter);
                     }
                     Err(_) => {
                         // If we can't register, use fallback counter
                         match storage.get_modification_counter(conn.db_index, &key) {
                             Ok(baseline_counter) => {
-                                conn.transaction_state.watched_keys.insert(key, baseline_counter);
+                                conn.transaction_state.watched_keys.insert(entry, baseline_counter);
                             }
                             Err(_) => {
-                                conn.transaction_state.watched_keys.insert(key, 0);
+                                conn.transaction_state.watched_keys.insert(entry, 0);
                             }
                         }
                     }
@@ -144,8 +146,8 @@ pub fn handle_watch(conn: &mut Connection, parts: &[RespFrame], storage: &Arc<St
 /// Handle UNWATCH command - Unwatch all keys
 pub fn handle_unwatch(conn: &mut Connection, storage: &Arc<StorageEngine>) -> Result<RespFrame> {
     // Unregister all watches
-    for key in conn.transaction_state.watched_keys.keys() {
-        let _ = storage.unregister_watch(conn.db_index, key);
+    for (watch_db, key) in conn.transaction_state.watched_keys.keys() {
+        let _ = storage.unregister_watch(*watch_db, key);
     }
     
     conn.transaction_state.watched_keys.clear();
